@@ -513,6 +513,17 @@ func c18Relations(w *W, r *rand.Rand, c c18Case) {
 		w.Evals++
 		return o
 	}
+	runVars := func(name string, args []interface{}) Outcome {
+		src, b, names := c18Source(name, args, true)
+		cc := buildConfig(CaseCfg{Opts: OptSet(r.Intn(16)), VarNames: names}, nil)
+		e, co := compileGuard(cc, src)
+		if co.Err != nil || co.Panic != nil {
+			return Outcome{Err: fmt.Errorf("compile: %v %v", co.Err, co.Panic)}
+		}
+		o, _ := callExpr(e, CallEval, fetcherFor(b, nil), nil, false)
+		w.Evals++
+		return o
+	}
 	neg := func(o Outcome) interface{} {
 		if b, ok := o.V.(bool); ok && o.Err == nil {
 			return !b
@@ -543,6 +554,16 @@ func c18Relations(w *W, r *rand.Rand, c c18Case) {
 			w.Inc("relations_checked")
 			if x.Err != nil || y.Err != nil || x.V != neg(y) {
 				w.Fail("relation/ne-is-not-eq", "ne%s = %s but eq = %s", argsText(a), x, y)
+			}
+			// values of other Go types reaching the operators un-normalised (through a fetcher that does not
+			// normalise, as a registered operator's result or a ConstantMap entry would): eq and ne stay complementary
+			foreign := []interface{}{int64(5), int(5), int32(5), uint8(5), float64(5), int64(0), int(0), uint8(0), float64(0), nil, "5", true}
+			fa := []interface{}{foreign[r.Intn(len(foreign))], foreign[r.Intn(len(foreign))]}
+			fx, fy := runVars(aliasesOf["ne"][r.Intn(2)], fa), runVars(aliasesOf["eq"][r.Intn(3)], fa)
+			w.Inc("relations_checked_foreign_types")
+			wantEq, _ := applyBuiltin("eq", fa)
+			if fx.Err != nil || fy.Err != nil || fx.V != neg(fy) || fy.V != wantEq {
+				w.Fail("relation/ne-is-not-eq", "operands %T(%v) and %T(%v): ne = %s, eq = %s (identical type and value: %v)", fa[0], fa[0], fa[1], fa[1], fx, fy, wantEq)
 			}
 		case "le", "ge":
 			a := ints(2)
